@@ -45,7 +45,7 @@ def plan(tier, seed):
         for part in range(4):
             ch.append({"key": f"info/{bits}/{part}", "kind": "info", "bits": bits, "part": part, "cost": 200 * (bits // 1024) ** 2})
         ch.append({"key": f"fields/{bits}", "kind": "fields", "bits": bits, "cost": 200 * (bits // 1024) ** 2})
-        if BOUNDS[tier]["pairs"]:
+        if BOUNDS[tier]["pairs"] or bits == 1024:
             for i in range(len(FIELDS)):
                 ch.append({"key": f"pairs/{bits}/{i}", "kind": "pairs", "bits": bits, "first": i, "cost": 800 * (bits // 1024) ** 2})
         ch.append({"key": f"blobs/{bits}", "kind": "blobs", "bits": bits, "cost": 300 * (bits // 1024) ** 2})
